@@ -192,6 +192,36 @@ bool apply_fault(const Op &f, const Bytes &enc, const Bytes &enc2, uint64_t t_ov
         out.resize(len); // same declared length, shifted content
         return out != enc;
     }
+    if (kind == "inflate-count" || kind == "inflate-dictsize") {
+        // dictionary format [dict_size][entries...][count][indices...]: splice a hostile number into a
+        // length field located by parsing the valid encoding
+        if (!len) return false;
+        uint64_t dsz = 0;
+        size_t pos = 0;
+        size_t w0 = varintTaggedGet(enc.data(), (int32_t)std::min<size_t>(len, 9), &dsz);
+        if (!w0) return false;
+        if (kind == "inflate-count") {
+            pos = w0;
+            for (uint64_t i = 0; i < dsz && pos < len; i++) pos += varintTaggedGetLen(&enc[pos]);
+            if (pos >= len) return false;
+        }
+        unsigned iw = 1;
+        while (iw < 8 && dsz && ((dsz - 1) >> (8 * iw))) iw++;
+        uint64_t v = f.u("v");
+        uint64_t j = f.u("wrapj");
+        if (j) { // smallest count whose product with the index width wraps j times, plus k
+            __uint128_t big = ((__uint128_t)1 << 64) * (j % (iw + 1) ? j % (iw + 1) : 1);
+            v = (uint64_t)((big + iw - 1) / iw) + f.u("k");
+        }
+        size_t old = varintTaggedGetLen(&enc[pos]);
+        uint8_t tmp[9];
+        size_t w = varintTaggedPut64(tmp, v);
+        out.assign(enc.begin(), enc.begin() + (long)pos);
+        out.insert(out.end(), tmp, tmp + w);
+        if (pos + old < len) out.insert(out.end(), enc.begin() + (long)(pos + old), enc.end());
+        if (f.u("keeplen")) out.resize(len);
+        return out != enc;
+    }
     if (kind == "inflate") { // splice the tagged varint of a huge number over the varint at `pos`
         if (!len) return false;
         size_t pos = f.u("pos") % len;
@@ -282,7 +312,7 @@ class PipeInput : public Engine {
     const char *property() const override { return "C14"; }
     uint64_t tag() const override { return 0x1401; }
     std::vector<std::string> fixed_args() const override {
-        return {"t", "kind", "entry", "shape", "bit", "bit2", "keeplen"};
+        return {"t", "kind", "entry", "shape", "bit", "bit2", "keeplen", "wrapj"};
     }
 
     static std::string codec_of(const std::string &entry) {
@@ -315,6 +345,10 @@ class PipeInput : public Engine {
         size_t n = gen_length(r, tier, 120);
         int cls = (int)r.below(ARR_NCLASSES);
         if (entry.rfind("dict", 0) == 0 && r.chance(2, 3)) cls = r.chance(1, 2) ? ARR_LOWCARD : ARR_CONSTANT;
+        if (entry.rfind("dict", 0) == 0 && r.chance(1, 6)) {
+            n = r.range(257, 600); // more than 256 dictionary entries: 2-byte indices
+            cls = r.chance(1, 2) ? ARR_FULL64 : ARR_SORTED;
+        }
         if (entry.rfind("elias", 0) == 0) cls = r.chance(2, 3) ? ARR_SMALL : ARR_FULL64;
         if (entry == "rle.runcount" && r.chance(2, 3)) cls = ARR_LOWCARD;
         if (entry == "bp128.getcount") {
@@ -408,6 +442,22 @@ class PipeInput : public Engine {
             if (entry == "dict.decode_into" || entry.rfind("elias", 0) == 0)
                 f.set("cap", r.chance(1, 2) ? vals.size() : r.below(vals.size() + 2));
             p.ops.push_back(f);
+        }
+        if (entry.rfind("dict", 0) == 0) { // hostile length fields, located by structure
+            size_t ns = r.range(2, 6);
+            for (size_t i = 0; i < ns; i++) {
+                Op f;
+                f.kind = "fault";
+                f.sets("kind", r.chance(2, 3) ? "inflate-count" : "inflate-dictsize");
+                if (r.chance(1, 2)) {
+                    f.set("wrapj", r.range(1, 8));
+                    f.set("k", r.chance(1, 2) ? r.below(4) : r.below(vals.size() * 2 + 2));
+                } else
+                    f.set("v", r.chance(1, 2) ? r.pick(huge) : vals.size() + r.range(1, 3));
+                f.set("keeplen", r.below(2));
+                if (entry == "dict.decode_into") f.set("cap", r.chance(1, 2) ? vals.size() : r.below(vals.size() + 2));
+                p.ops.push_back(f);
+            }
         }
         // hostile bytes from scratch
         size_t ng = r.range(1, 4);
